@@ -30,19 +30,28 @@ func TestDump(t *testing.T) {
 	enc := json.NewEncoder(f)
 	rows := 0
 	for c := -32768; c <= 32767; c++ {
-		e := kerr.ErrorForCode(int16(c))
-		row := map[string]any{"kind": "err", "code": c, "isnil": e == nil, "ecode": 0, "named": false}
-		var ke *kerr.Error
-		if errors.As(e, &ke) {
-			row["ecode"] = int(ke.Code)
-			row["named"] = ke.Message != "" && ke.Description != ""
-			// typed lookup and IsRetriable must agree with the table entry
-			if te := kerr.TypedErrorForCode(int16(c)); te == nil || te.Code != ke.Code || kerr.IsRetriable(e) != ke.Retriable {
+		row := map[string]any{"kind": "err", "code": c, "isnil": false, "ecode": 0, "named": false}
+		func() {
+			defer func() {
+				if r := recover(); r != nil { // a lookup that panics is a row that violates every predicate
+					row["ecode"] = -9998
+					row["isnil"] = false
+				}
+			}()
+			e := kerr.ErrorForCode(int16(c))
+			row["isnil"] = e == nil
+			var ke *kerr.Error
+			if errors.As(e, &ke) {
+				row["ecode"] = int(ke.Code)
+				row["named"] = ke.Message != "" && ke.Description != ""
+				// typed lookup and IsRetriable must agree with the table entry
+				if te := kerr.TypedErrorForCode(int16(c)); te == nil || te.Code != ke.Code || kerr.IsRetriable(e) != ke.Retriable {
+					row["ecode"] = -9999
+				}
+			} else if e != nil {
 				row["ecode"] = -9999
 			}
-		} else if e != nil {
-			row["ecode"] = -9999
-		}
+		}()
 		enc.Encode(row)
 		rows++
 	}
